@@ -426,7 +426,9 @@ def run(ctx) -> None:
         ok = sep_w is not None and seps == {sep_w}
         rep.add("C14.R5", "separator-agreement", ok, conv.loc(), f"writer joins with {sep_w!r}, PauseInfo splits on {sorted(seps)}" if ok else f"path separator differs: writer {sep_w!r} vs PauseInfo {sorted(seps)}")
         # the prefixed name starts with this node's name
-        okp = any(isinstance(x, ast.JoinedStr) and len(x.values) == 3 and "node.name" in src(x.values[0]) and "pause.node_name" in src(x.values[2]) for x in walk_local(conv.node))
+        from .common import wrapper_param
+
+        okp = any(isinstance(x, ast.JoinedStr) and len(x.values) == 3 and f"{wrapper_param(conv)}.name" in src(x.values[0]) and "pause.node_name" in src(x.values[2]) for x in walk_local(conv.node))
         rep.add("C14.R5", "prefix-shape", okp, conv.loc(), "nested pause is renamed '<node.name>/<inner node_name>'" if okp else "nested pause identity is not '<node.name>/<inner name>'")
 
     # ---- R6 ---------------------------------------------------------------------
